@@ -31,8 +31,12 @@ RULE = ("names: 1-3 links over child (Instance) / kids (List) / byname (Dict) wi
         "del, pop, popitem, clear. 30% of the histories ('E') use a node class with value-based __eq__ (unhashable) "
         "and replace items / dict values by equal CLONES, so that any use of == instead of identity shows. "
         "Exhaustive: all histories of length <= 2 (quick) / <= 3 (thorough) over an 8-35 letter "
-        "alphabet (every op kind on the two upper objects, probes, rm, rg) on a 3-object tree for 10 fixed names "
-        "(2 of them with value-equality nodes), registered before and after the tree is built. "
+        "alphabet (every op kind on the two upper objects, probes, rm, rg) on a 3-object tree for 13 fixed names "
+        "(2 with value-equality nodes, 3 with deferred registrations), registered before and after the tree is built. "
+        "30% of the histories use deferred=True registrations ('D': @on_trait_change-decorated method of the root's "
+        "class when the history starts with rg, on_trait_change(root._h, name, deferred=True) for later "
+        "re-registrations; 'K': the keyword with a plain function), mostly with a List/Dict first link and with more "
+        "rm/rg toggles, so that registrations, removals and re-registrations happen with items present. "
         "A case is non-trivial when some handler was called; distinct = distinct canonical output line")
 TRUSTED = ["the reachability specification `reach`/`specCalls` (Model/Legacy.lean) is what observe is taken to promise; "
            "it is re-computed independently in Python on the real object graph (c16lib.levels) by the oracle",
@@ -42,7 +46,7 @@ TRUSTED = ["the reachability specification `reach`/`specCalls` (Model/Legacy.lea
 ASSUMPTIONS = ["tree-shaped graphs: every inserted object is fresh; objects removed from the tree stay in the probe "
                "pool but are never re-inserted",
                "common fragment only: no wildcards/metadata/?/* names, no ListenerGroup, no 1-/2-argument (DST) "
-               "handlers, dispatch='same', deferred=False, priority=False",
+               "handlers (1/2 arguments only with ':' links, oracle only), dispatch='same', priority=False",
                "ListenerParser itself is not modelled; names are produced in both syntaxes from one AST and the "
                "correspondence covers the parse"]
 EXHAUSTIVE = {"quick": False, "thorough": True}
@@ -64,6 +68,11 @@ def corpus():
         # value-equality nodes, items replaced by equal clones (seeded change C16-m2)
         "E 4 k: v|rg;sk 0 3;si 0 0;sl 0 1 3 2;si 0 2;ap 0;sl 0 0 2 2",
         "E 4 b. k. v|rg;ds 0 0;sk 1 2;si 1 1;ds 0 0;du 0 0 1;ap 2",
+        # deferred registrations (decorator / keyword) over container first links, removal with
+        # items present (seeded change C16-m4), re-registration with items present (F87, fixed in 0c9dae1)
+        "D 4 k: v|rg;sk 0 2;rm;pv 1;ap 0;rg;ap 0;rm",
+        "K 4 b. v|rg;ds 0 1;ds 0 2;rm;ds 0 3;rg;ds 0 1;rm",
+        "D 0 k. c: v|rg;ap 0;sc 1 1;rm;rg;sk 0 1;sc 4 1;rm",
     ]
 
 
